@@ -102,6 +102,9 @@ class TLSConnection(TLSRecordLayer):
         # if and how big is the limit on records peer is willing to accept
         # used only for TLS 1.2 and earlier
         self._peer_record_size_limit = None
+        # whether the server promised to send a NewSessionTicket message
+        # (TLS 1.2 and earlier, client side only)
+        self._session_ticket_negotiated = False
         self._pha_supported = False
         self.client_cert_compression_algo = None
         self.server_cert_compression_algo = None
@@ -1235,6 +1238,8 @@ class TLSConnection(TLSRecordLayer):
                         "record_size_limit extension"):
                     yield result
             self._peer_record_size_limit = size_limit_ext.record_size_limit
+        self._session_ticket_negotiated = serverHello.getExtension(
+            ExtensionType.session_ticket) is not None
         yield serverHello
 
     @staticmethod
@@ -4914,8 +4919,15 @@ class TLSConnection(TLSRecordLayer):
         expect_ccs_message = True
         # If we use SessionTicket resumption on client side, there are multiple
         # situations where the server has the option to send new ticket
+        # (only the server may send it, and only if it has echoed the
+        # session_ticket extension in ServerHello)
+        if self._client and self._session_ticket_negotiated:
+            expected_types = (ContentType.handshake,
+                              ContentType.change_cipher_spec)
+        else:
+            expected_types = (ContentType.change_cipher_spec, )
         for result in self._getMsg(
-                (ContentType.handshake, ContentType.change_cipher_spec),
+                expected_types,
                 HandshakeType.new_session_ticket):
             if result in (0, 1):
                 yield result
